@@ -137,6 +137,7 @@ package filesystem
 // letter case) are passed over without being opened; a file is imported only if it parsed as a certificate
 // configuration, under the path it was found at; files that do not parse are skipped without an error.
 //@ func importFiles$1 returns (res)
+//@   bounded TestVerifBoundedArtifactBytes
 //@   props C18 C20
 //@   uses strings.smt2
 //@   let MAPSF = deref(fsdb) != nil && deref(fsdb).configs != nil && deref(fsdb).artifacts != nil && deref(fsdb).fsMetadata != nil && deref(fsdb).profiles != nil && deref(fsdb).subscribersOf != nil && deref(fsdb).configs != deref(fsdb).artifacts && deref(fsdb).configs != deref(fsdb).fsMetadata && deref(fsdb).artifacts != deref(fsdb).fsMetadata && deref(fsdb).profiles != deref(fsdb).configs && deref(fsdb).profiles != deref(fsdb).artifacts && deref(fsdb).profiles != deref(fsdb).fsMetadata && deref(fsdb).subscribersOf != deref(fsdb).configs && deref(fsdb).subscribersOf != deref(fsdb).artifacts && deref(fsdb).subscribersOf != deref(fsdb).fsMetadata && deref(fsdb).subscribersOf != deref(fsdb).profiles
@@ -162,6 +163,7 @@ package filesystem
 
 // importFiles: only a filesystem database can be filled from a directory.
 //@ func importFiles returns (err)
+//@   bounded TestVerifBoundedArtifactBytes
 //@   props C18 C20
 //@   requires typeis(backend, "*gopki/generator/db/filesystem.FsDb") ==> unboxRef(backend) != 0
 //@   noframe
@@ -169,6 +171,7 @@ package filesystem
 
 // Open: the directory is imported and then checked; an inconsistent hierarchy is an error.
 //@ func (*FsDb).Open returns (err)
+//@   bounded TestVerifBoundedArtifactBytes
 //@   props C18 C20
 //@   requires fsdb != nil
 //@   noframe
